@@ -48,7 +48,7 @@ let () =
       while !pos < n_ev && !err = "" && not !exited && not !stuck do
         (match events.(!pos) with
          | ["start"; lp] -> st := AsyncApp.init (num lp); incr pos
-         | ["idle"; k] -> idle := !idle + int_of_string k; incr pos
+         | "idle" :: k :: _ -> idle := !idle + int_of_string k; incr pos
          | ["partial"] -> partial := true; incr pos
          | ["exit"] -> incr pos
          | "it" :: k :: _ ->
@@ -60,7 +60,7 @@ let () =
            while !pos < n_ev && not !closed do
              (match events.(!pos) with
               | ["end"] -> closed := true; incr pos
-              | "it" :: _ | ["idle"; _] | ["partial"] | ["exit"] -> closed := true
+              | "it" :: _ | "idle" :: _ | ["partial"] | ["exit"] -> closed := true
               | e -> evs := e :: !evs; incr pos)
            done;
            let evs = Stdlib.List.rev !evs in
